@@ -78,3 +78,24 @@ pub fn replay(id: &str, path: &Path) -> i32 {
         "C18" => c18::C18,
     )
 }
+
+/// one coverage-guided fuzz execution (see engine::fuzz_one)
+pub fn fuzz(id: &str, data: &[u8]) -> Option<(String, String)> {
+    macro_rules! go { ($p:expr) => { engine::fuzz_one(&$p, data) }; }
+    match id {
+        "C01" => go!(c01::C01), "C02" => go!(c02::C02), "C03" => go!(c03::C03), "C04" => go!(c04::C04), "C05" => go!(c05::C05), "C06" => go!(c06::C06),
+        "C07" => go!(c07::C07), "C08" => go!(c08::C08), "C09" => go!(c09::C09), "C10" => go!(c10::C10), "C11" => go!(c11::C11), "C12" => go!(c12::C12),
+        "C13" => go!(c13::C13), "C14" => go!(c14::C14), "C15" => go!(c15::C15), "C16" => go!(c16::C16), "C17" => go!(c17::C17), "C18" => go!(c18::C18),
+        _ => None,
+    }
+}
+
+pub fn fuzz_seeds(id: &str, n: usize, seed: u64) -> Vec<Vec<u8>> {
+    macro_rules! go { ($p:expr) => { engine::fuzz_seed_inputs(&$p, n, seed) }; }
+    match id {
+        "C01" => go!(c01::C01), "C02" => go!(c02::C02), "C03" => go!(c03::C03), "C04" => go!(c04::C04), "C05" => go!(c05::C05), "C06" => go!(c06::C06),
+        "C07" => go!(c07::C07), "C08" => go!(c08::C08), "C09" => go!(c09::C09), "C10" => go!(c10::C10), "C11" => go!(c11::C11), "C12" => go!(c12::C12),
+        "C13" => go!(c13::C13), "C14" => go!(c14::C14), "C15" => go!(c15::C15), "C16" => go!(c16::C16), "C17" => go!(c17::C17), "C18" => go!(c18::C18),
+        _ => vec![],
+    }
+}
